@@ -250,9 +250,13 @@ func runNodesResp(o *Out, r *rand.Rand, thorough bool, _ []string) {
 			sip := senderIPs[r.Intn(len(senderIPs))]
 			sender := signRecPad(keyFromSeed(r), sip, 3000+r.Intn(100), 1, 0)
 			// requested distances
-			var req []uint
+			req := []uint{} // non-nil: an empty list is a request for zero distances, not "no constraint"
 			pool := []uint{0, 253, 254, 255, 256}
-			for j := 0; j < 1+r.Intn(3); j++ {
+			nReq := 1 + r.Intn(3)
+			if r.Intn(10) == 0 {
+				nReq = 0
+			}
+			for j := 0; j < nReq; j++ {
 				req = append(req, pool[r.Intn(len(pool))])
 			}
 			var recs [][]byte
@@ -305,9 +309,12 @@ func runNodesResp(o *Out, r *rand.Rand, thorough bool, _ []string) {
 				continue
 			}
 			resp := append([]byte{portalwire.NODES}, body...)
-			var rq []string
+			rq := []string{}
 			for _, d := range req {
 				rq = append(rq, strconv.Itoa(int(d)))
+			}
+			if len(rq) == 0 {
+				rq = []string{"-"}
 			}
 			if len(desc) == 0 {
 				desc = []string{"-"}
